@@ -39,13 +39,13 @@ func FieldOf(v ssa.Value) (*types.Var, ssa.Value) {
 	case *ssa.UnOp:
 		if x.Op == token.MUL {
 			if fa, ok := x.X.(*ssa.FieldAddr); ok {
-				return fieldVar(fa.X.Type(), fa.Field), fa.X
+				return fieldVar(fa.X.Type(), fa.Field), structRoot(fa.X)
 			}
 		}
 	case *ssa.FieldAddr:
-		return fieldVar(x.X.Type(), x.Field), x.X
+		return fieldVar(x.X.Type(), x.Field), structRoot(x.X)
 	case *ssa.Field:
-		return fieldVar(x.X.Type(), x.Field), x.X
+		return fieldVar(x.X.Type(), x.Field), structRoot(x.X)
 	case *ssa.Parameter:
 		// an unexported function with a single static call site that is handed a field (or its address):
 		// inside it the parameter denotes that field
@@ -59,6 +59,23 @@ func FieldOf(v ssa.Value) (*types.Var, ssa.Value) {
 		}
 	}
 	return nil, nil
+}
+
+// structRoot: the object a nested by-value struct is part of (`&l.cfg` -> l, `l.cfg` -> l): a field of a struct
+// embedded or held by value belongs to the enclosing object.
+func structRoot(base ssa.Value) ssa.Value {
+	for d := 0; d < 6; d++ {
+		switch b := base.(type) {
+		case *ssa.FieldAddr:
+			base = b.X
+			continue
+		case *ssa.Field:
+			base = b.X
+			continue
+		}
+		break
+	}
+	return base
 }
 
 // ParamArg: the argument bound to prm when its function has a single static call site (else nil).
